@@ -27,7 +27,7 @@ RULE = ('family = one store (new / from_dict / from_list with immutable_warranty
         'read equals the pristine snapshot taken at construction. Non-trivial = a '
         'mutation happened before a later read; distinct = distinct (store, payload, '
         'history).')
-PROBES = ['mutated_then_reread_same_path', 'mutated_then_reread_other_path',
+PROBES = ['two_client_threads', 'mutated_then_reread_same_path', 'mutated_then_reread_other_path',
           'original_container_mutated', 'read_by_prefetch_worker',
           'first_access_object_mutated', 'cached_access_object_mutated']
 BUDGET = {
@@ -45,12 +45,16 @@ COMPONENTS = {
 ASSUMPTIONS = ['isolation is judged by deep equality with a snapshot normalised to plain lists / dicts',
                'the disk cache lives on a real temporary directory removed after each run']
 
-STORES = ['new_pickle', 'new_pickle', 'new_copy', 'new_wu', 'cache', 'eager_cache', 'diskcache']
+STORES = ['new_pickle', 'new_pickle', 'new_copy', 'new_wu', 'cache', 'eager_cache', 'diskcache',
+          'cache_tuple', 'new_tuple']
 PATHS = ['index', 'neg', 'key', 'iter', 'items', 'slice', 'copy', 'prefetch1', 'prefetchw']
 MUTS = ['set', 'del', 'append', 'clear', 'array', 'nested']
 
 
 def payload(i, shape):
+    if shape == 'tuple':
+        # shallowly immutable container with mutable content
+        return ({'id': i, 'a': [i, {'b': [i]}]}, [i, i + 1], 'txt%d' % i)
     ex = {'id': i, 's': 'txt%d' % i}
     if shape in ('nested', 'all'):
         ex['a'] = [i, {'b': [i, i + 1]}, [1, 2]]
@@ -66,6 +70,20 @@ def gen(rng, tier, index):
     n = rng.randrange(1, 6)
     kind = 'list' if store == 'new_wu' else rng.choice(['list', 'dict'])
     shape = rng.choice(['nested', 'array', 'all', 'flatlist'])
+    if store.endswith('_tuple'):
+        shape = 'tuple'
+    if rng.random() < 0.15 and store in ('cache', 'diskcache', 'new_pickle', 'new_copy',
+                                         'cache_tuple'):
+        # two client threads read and mutate concurrently (thread simulator)
+        cases = []
+        for j in range(3):
+            plans = [[rng.randrange(n) for _ in range(rng.randrange(2, 6))] for _t in range(2)]
+            cases.append({'mode': 'concurrent', 'store': store, 'n': n, 'kind': kind,
+                          'shape': shape, 'plans': plans, 'muts': [rng.choice(MUTS) for _ in range(4)],
+                          'sched': {'policy': rng.choice(['random', 'sticky']), 'params': {'p': 0.5},
+                                    'seed': rng.randrange(1 << 30)},
+                          'ops': []})
+        return cases
     cases = []
     for j in range(3):
         ops = []
@@ -96,6 +114,12 @@ def mutate(v, how):
     """deep in-place damage; returns True if something changed"""
     if isinstance(v, tuple) and len(v) == 2 and isinstance(v[0], str):
         v = v[1]
+    if isinstance(v, tuple):
+        done = False
+        for part in v:
+            if isinstance(part, (dict, list)):
+                done = mutate(part, how) or done
+        return done
     try:
         if isinstance(v, dict):
             if how == 'set':
@@ -154,11 +178,13 @@ def run(case):
         warnings.simplefilter('ignore')
         try:
             store = case['store']
-            if store.startswith('new_'):
+            if store == 'new_tuple':
+                ds = lazy_dataset.new(orig)
+            elif store.startswith('new_'):
                 ds = lazy_dataset.new(orig, immutable_warranty=store[4:])
             else:
                 base = lazy_dataset.new(orig)
-                if store == 'cache':
+                if store in ('cache', 'cache_tuple'):
                     ds = base.cache()
                 elif store == 'eager_cache':
                     ds = base.cache(lazy=False)
@@ -188,6 +214,8 @@ def run(case):
                 held.append((v, i, path, first))
                 del held[:-4]
 
+            if case.get('mode') == 'concurrent':
+                _run_concurrent(case, ds, pristine, violations, probes, fired)
             for op in case['ops']:
                 if violations:
                     break
@@ -260,6 +288,50 @@ def run(case):
                         stats={'ops': len(case['ops'])},
                         sample={'case': case, 'pristine_0': pristine[0]},
                         digest_extra=None)
+
+
+def _run_concurrent(case, ds, pristine, violations, probes, fired):
+    """Two client threads read (by index) and immediately mutate what they
+    got, under the seeded thread scheduler with line-granular pre-emption of
+    lazy_dataset/core.py.  Every read must return the pristine value."""
+    import threading
+    sim = S.Sim(case['sched'], trace_files=[ldc.__file__])
+    bad = []
+
+    def client(cid, plan):
+        for j, i in enumerate(plan):
+            v = ds[i]
+            nv = W.norm(v)
+            if nv != pristine[i]:
+                bad.append((cid, i, nv))
+                return
+            mutate(v, case['muts'][(cid * 2 + j) % len(case['muts'])])
+            sim.yield_point('client')
+
+    with S.simulation(sim):
+        try:
+            ts = [threading.Thread(target=client, args=(c, p))
+                  for c, p in enumerate(case['plans'])]
+            for t in ts:
+                t.start()
+            for t in ts:
+                t.join()
+            sim.drain()
+        except S.SimAbort:
+            pass
+    if sim.failure:
+        violations.append(hist.viol('hang', 'hang:concurrent:' + case['store'],
+                                    'two concurrent clients: %s' % sim.failure))
+    elif bad:
+        cid, i, nv = bad[0]
+        violations.append(hist.viol(
+            'stored_data_changed', 'stored_data_changed:%s:concurrent_clients' % case['store'],
+            'client %d read example %d as %s while another client was mutating the example '
+            'it had been handed; pristine value is %s'
+            % (cid, i, W.short(nv, 100), W.short(pristine[i], 100))))
+    probes['two_client_threads'] = 1
+    fired['concurrent_clients'] = 1
+    fired['client_mutation_concurrent'] = 1
 
 
 def _prefetch_read(ds, w, seed):
